@@ -757,7 +757,7 @@ VALUE_PARAMS = {
     "fill_scales_for_dyadic_pyramid": ["target_chunk_size", "max_scales"],
     "nibabel_image_to_precomputed": ["ignore_scaling", "input_min",
                                      "input_max", "load_full_volume"],
-    "get_downscaler": ["downscaling_method", "info"],
+    "get_downscaler": ["downscaling_method", "info", "options"],
 }
 
 
@@ -948,6 +948,16 @@ def pipeline_composition(repo, col):
                 col.add(rule + ".param", allin, "%s(%s)" % (nm, p), ok,
                         "" if ok else "%s is called without the info in one "
                         "program" % nm)
+                continue
+            if ea[0] == "expr" and eb[0] == "expr":
+                same = ea[1] == eb[1]
+                col.add(rule + ".param", allin, "%s(%s): %s vs %s"
+                        % (nm, p, ea[1], eb[1]), same, "" if same else
+                        "parameter %s of stage %s is `%s` in the all-in-one "
+                        "command but `%s` in the step-by-step command: options "
+                        "given on the command line reach only one of them"
+                        % (p, nm, ea[1], eb[1]),
+                        undecided=not same and "vars(args)" not in (ea[1], eb[1]))
                 continue
             va = ea[2] if ea[0] == "cli" else ea[1]
             vb = eb[2] if eb[0] == "cli" else eb[1]
